@@ -4,6 +4,7 @@ import (
 	"fmt"
 	"sort"
 	"strings"
+	"sync"
 )
 
 // Sort is an SMT-LIB sort, kept as its textual form.
@@ -198,7 +199,38 @@ func Ite(c, a, b Term) Term {
 	return mk(a.Sort, "ite", c, a, b)
 }
 
+type storeInfo struct{ arr, idx, val Term }
+
+var (
+	storeTable = map[string]storeInfo{}
+	storeMu    sync.Mutex
+)
+
+// distinctFresh: two different allocation constants denote different objects.
+func distinctFresh(a, b Term) bool {
+	isNew := func(t Term) bool { return strings.HasPrefix(t.S, "new!") || strings.HasPrefix(t.S, "|new!") }
+	return a.S != b.S && isNew(a) && isNew(b)
+}
+
+// Select simplifies reads over syntactically matching (or provably distinct
+// fresh) stores; everything else is left to the solver.
 func Select(arr, idx Term) Term {
+	for {
+		storeMu.Lock()
+		si, ok := storeTable[arr.S]
+		storeMu.Unlock()
+		if !ok {
+			break
+		}
+		if si.idx.S == idx.S {
+			return si.val
+		}
+		if distinctFresh(si.idx, idx) {
+			arr = si.arr
+			continue
+		}
+		break
+	}
 	return mk(arr.Sort.ElemSort(), "select", arr, idx)
 }
 
@@ -206,7 +238,11 @@ func Store(arr, idx, v Term) Term {
 	if arr.Sort.ElemSort() != v.Sort {
 		panic(fmt.Sprintf("Store sort mismatch: %s elem %s vs %s:%s", arr.S, arr.Sort.ElemSort(), v.S, v.Sort))
 	}
-	return mk(arr.Sort, "store", arr, idx, v)
+	t := mk(arr.Sort, "store", arr, idx, v)
+	storeMu.Lock()
+	storeTable[t.S] = storeInfo{arr, idx, v}
+	storeMu.Unlock()
+	return t
 }
 
 func Add(a, b Term) Term {
@@ -412,6 +448,16 @@ func (d *Decls) ScriptOpt(assumptions []Term, goal Term, wantModel bool, dropQua
 	fmt.Fprintf(&body, "(assert (not %s))\n", goal.S)
 	text := body.String()
 	used := usedSymbols(text)
+	// package-level error sentinels hold pairwise distinct values
+	var sent []string
+	for _, id := range d.order {
+		if used[id] && d.consts[id] == SInt && (strings.HasPrefix(id, "glob!") || strings.HasPrefix(id, "|glob!")) && isSentinelName(id) {
+			sent = append(sent, id)
+		}
+	}
+	if len(sent) > 1 {
+		text = "(assert (distinct " + strings.Join(sent, " ") + "))\n" + text
+	}
 	var b strings.Builder
 	if wantModel {
 		b.WriteString("(set-option :produce-models true)\n")
@@ -433,6 +479,15 @@ func (d *Decls) ScriptOpt(assumptions []Term, goal Term, wantModel bool, dropQua
 		b.WriteString("(get-model)\n")
 	}
 	return b.String()
+}
+
+func isSentinelName(id string) bool {
+	i := strings.LastIndex(id, ".")
+	if i < 0 {
+		return false
+	}
+	n := strings.TrimSuffix(id[i+1:], "|")
+	return strings.HasPrefix(n, "Err") || strings.HasPrefix(n, "err") || n == "EOF" || n == "Canceled" || n == "DeadlineExceeded"
 }
 
 func usedSymbols(text string) map[string]bool {
